@@ -1137,6 +1137,250 @@ fn conc_exhaustive(out: &mut Out, cap: usize, progs: &[Vec<TOp>], limit: usize) 
 }
 
 // ---------------------------------------------------------------------------------------------
+// stream E2: epochs of pushers (several pushing threads, no consumer thread): counts, "only pushed values, no push
+// twice", and claim order vs store order (theorems conc_pushers_* / conc_retention_is_sequential_on_claim_order_partial)
+
+/// one epoch of pushers under `schedule`, then the drain.  The run is replayed on the step machine (`crun`), checked by
+/// the trace oracles, by the direct oracles below (no model), and read through the ghosts of the theorems (`pushers`):
+/// claim order from the trace, "stores in claim order", and — when they are — the drain of SEQUENTIAL push over the
+/// claim order must be the drain of the real code.
+fn pushers_case(out: &mut Out, tag: &str, cap: usize, progs: &[Vec<TOp>], schedule: &[usize]) -> Option<(bool, Vec<u64>)> {
+    pushers_case_run(out, tag, cap, progs, schedule).1
+}
+
+fn pushers_case_run(out: &mut Out, tag: &str, cap: usize, progs: &[Vec<TOp>], schedule: &[usize]) -> (ConcRun, Option<(bool, Vec<u64>)>) {
+    let r = conc_case(out, tag, cap, progs, schedule, false);
+    out.count("pushers: epochs");
+    let ctx = format!("cap={} programs={} executed schedule={}", cap, progs_tok(progs), crate::sched::sched_tok(&r.taken));
+    if !r.panicked.is_empty() || r.flush.len() != 2 {
+        return (r, None); // reported by conc_oracles
+    }
+    let n: usize = progs.iter().map(|p| p.len()).sum();
+    if r.pushes.len() != n || r.pushes.iter().any(|p| p.t_claim.is_none() || p.t_store.is_none()) {
+        out.oracle_fail("pushers: a push did not complete", &format!("{}: trace {}", ctx, r.labels));
+        return (r, None);
+    }
+    let mut by_claim: Vec<&PushRec> = r.pushes.iter().collect();
+    by_claim.sort_by_key(|p| p.t_claim.unwrap());
+    let inorder = by_claim.windows(2).all(|w| w[0].t_store.unwrap() < w[1].t_store.unwrap());
+    let d = &r.flush[0];
+    let all: Vec<u64> = r.pushes.iter().map(|p| p.bits).collect();
+    // direct oracles: what conc_pushers_epoch_exact states, on the real drain
+    match unsampled_of(cap, d) {
+        Err(why) => out.oracle_fail("drain length / sample rate inconsistent", &format!("{}: {} (drain {:?})", ctx, why, d)),
+        Ok(u) => {
+            if let Some(u) = u {
+                if u != n {
+                    out.oracle_fail(
+                        "pushers: the drain after concurrent pushers does not report the number of pushes made",
+                        &format!("{}: {} pushes by {} threads completed, no drain in flight; the drain reports {} (len {} rate {:?})", ctx, n, progs.len(), u, d.len, d.rate),
+                    );
+                }
+            }
+            if d.len != n.min(cap) {
+                out.oracle_fail(
+                    "pushers: the drain after concurrent pushers does not yield min(pushed, capacity) values",
+                    &format!("{}: {} pushes, capacity {}: {} values yielded: {:?}", ctx, n, cap, d.len, d),
+                );
+            }
+        }
+    }
+    if !is_sub_multiset(&d.vals, &all) {
+        out.oracle_fail(
+            "pushers: the drain after concurrent pushers yields a value that was not pushed, or one push twice",
+            &format!("{}: pushed {:x?}, yielded {:x?}", ctx, all, d.vals),
+        );
+    }
+    if n <= cap {
+        let (mut a, mut b) = (d.vals.clone(), all.clone());
+        a.sort();
+        b.sort();
+        if a != b {
+            out.oracle_fail("pushers: not all values come out although no more than capacity were pushed", &format!("{}: pushed {:x?}, yielded {:x?}", ctx, all, d.vals));
+        }
+        // slot order is claim order
+        let claim_vals: Vec<u64> = by_claim.iter().map(|p| p.bits).collect();
+        if d.vals != claim_vals {
+            out.oracle_fail("pushers: below capacity the drain does not yield the values in claim order", &format!("{}: claim order {:x?}, yielded {:x?}", ctx, claim_vals, d.vals));
+        }
+    }
+    out.count(if inorder { "pushers: epochs with all stores in claim order" } else { "pushers: epochs with a store overtaking an earlier claim" });
+    if n > cap && cap > 0 {
+        out.count(if inorder { "pushers: sampled epochs, stores in claim order" } else { "pushers: sampled epochs, a store overtakes an earlier claim" });
+    }
+    let log = list(by_claim.iter().map(|p| format!("{:016x}", p.bits)));
+    let seq = if inorder { drain_tok(d) } else { "-".to_string() };
+    out.op(
+        &format!("reservoir pushers {} {} {}", cap, progs_tok(progs), crate::sched::sched_tok(&r.taken)),
+        &format!("pushonly=1 done=1 inorder={} log={} n={} drain={} seq={}", inorder as u8, log, n, drain_tok(d), seq),
+    );
+    let res = Some((inorder, d.vals.clone()));
+    (r, res)
+}
+
+/// schedule for `lens[t]` pushes per thread (3 grants per push).  mode 0: random interleaving constrained so that a
+/// store never overtakes an earlier claim; mode 1: unconstrained bursts; mode 2: one thread claims early and stores
+/// last (late store).
+fn pushers_schedule(r: &mut Rng, lens: &[usize], mode: usize) -> Vec<usize> {
+    let n = lens.len();
+    let mut left: Vec<usize> = lens.to_vec();
+    let mut pc = vec![0usize; n]; // 0 idle, 1 selected, 2 claimed
+    let mut idx = vec![0usize; n];
+    let mut count = 0usize;
+    let mut sched = vec![];
+    let late = r.below(n);
+    let mut burst: Option<(usize, usize)> = None;
+    loop {
+        let live: Vec<usize> = (0..n).filter(|&t| left[t] > 0).collect();
+        if live.is_empty() {
+            break;
+        }
+        let mut t = match burst {
+            Some((b, k)) if k > 0 && left[b] > 0 => {
+                burst = Some((b, k - 1));
+                b
+            }
+            _ => {
+                let b = *r.pick(&live);
+                burst = Some((b, r.below(4)));
+                b
+            }
+        };
+        if mode == 2 && t == late && pc[t] == 2 && live.len() > 1 {
+            // the late thread keeps its claim pending while anybody else can move
+            let others: Vec<usize> = live.iter().copied().filter(|&x| x != late).collect();
+            t = *r.pick(&others);
+        }
+        if mode == 0 && pc[t] == 2 {
+            // stores in claim order: the smallest pending claim goes first
+            t = (0..n).filter(|&x| left[x] > 0 && pc[x] == 2).min_by_key(|&x| idx[x]).unwrap();
+        }
+        sched.push(t);
+        match pc[t] {
+            0 => pc[t] = 1,
+            1 => {
+                pc[t] = 2;
+                idx[t] = count;
+                count += 1;
+            }
+            _ => {
+                pc[t] = 0;
+                left[t] -= 1;
+            }
+        }
+    }
+    sched
+}
+
+fn pushers_random(r: &mut Rng, out: &mut Out, i: usize) {
+    let cap = *r.pick(&[0usize, 1, 1, 2, 2, 3, 4]);
+    let nth = r.range(2, 4);
+    let mut progs: Vec<Vec<TOp>> = vec![];
+    let mut lens = vec![];
+    let mut g = 0usize;
+    for t in 0..nth {
+        let k = r.range(1, 4);
+        lens.push(k);
+        progs.push((0..k).map(|j| { g += 1; TOp::Push(pv(t, j), pick_raw(r, g)) }).collect());
+    }
+    let mode = i % 3;
+    let sched = pushers_schedule(r, &lens, mode);
+    out.count(&format!("pushers: cap={}", cap));
+    out.count(&format!("pushers: threads={}", nth));
+    out.count(&format!("pushers: schedule mode={}", ["stores in claim order", "free", "late store"][mode]));
+    if let Some((inorder, _)) = pushers_case(out, &format!("pushers random i={}", i), cap, &progs, &sched) {
+        if mode == 0 && !inorder {
+            out.oracle_fail("pushers: harness: a schedule built to keep the stores in claim order did not", &format!("cap={} programs={} schedule={:?}", cap, progs_tok(&progs), sched));
+        }
+    }
+}
+
+fn pushers_corpus(out: &mut Out) {
+    let p = |t: usize, k: usize, raw: usize| TOp::Push(pv(t, k), raw);
+    // theorem conc_late_store_breaks_uniformity on the real code: capacity 1, thread 0 claims index 0 and is delayed,
+    // thread 1 claims index 1, draws (either choice) and stores, then thread 0 stores: thread 0's value is retained for
+    // BOTH choices; with the stores in claim order the choice decides (0: position 1, 1: position 0).
+    let mut late = vec![];
+    let mut ord = vec![];
+    for c in [0usize, 1] {
+        let progs = [vec![p(0, 0, 0)], vec![p(1, 0, c)]];
+        if let Some((io, vals)) = pushers_case(out, &format!("pushers corpus late store cap=1 choice={}", c), 1, &progs, &[0, 0, 1, 1, 1, 0]) {
+            late.push((io, vals));
+        }
+        if let Some((io, vals)) = pushers_case(out, &format!("pushers corpus stores in claim order cap=1 choice={}", c), 1, &progs, &[0, 0, 1, 1, 0, 1]) {
+            ord.push((io, vals));
+        }
+    }
+    if late.len() == 2 && ord.len() == 2 {
+        let late_same = late.iter().all(|(io, v)| !*io && v == &vec![pv(0, 0)]);
+        let ord_split = ord[0] == (true, vec![pv(1, 0)]) && ord[1] == (true, vec![pv(0, 0)]);
+        out.count(if late_same {
+            "pushers: late-store witness reproduced on the real code (claim position 0 retained for both choices, position 1 never)"
+        } else {
+            "pushers: late-store witness NOT reproduced on the real code"
+        });
+        if late_same {
+            // the property's uniformity clause, read over schedules with concurrent pushers, fails on this schedule:
+            // known finding K-C16-late-store (Lean: C16.conc_late_store_breaks_uniformity); counts stay exact
+            out.oracle_fail(
+                "K-C16-late-store: with two concurrent pushers and the first claim's slot store delayed past the second push, claim position 0 is retained whatever the random choice and position 1 never (capacity 1, n = 2: each should be retained with probability 1/2)",
+                &format!("schedule 0.0.1.1.1.0, choices 0 and 1 of the second push: drains {:x?}; with the stores in claim order the choice decides: {:x?}", late, ord),
+            );
+        }
+        if !ord_split {
+            out.oracle_fail(
+                "pushers: two pushers with stores in claim order: the retained claim position does not follow the random choice",
+                &format!("cap=1, claims 0 then 1; choice 0 must retain claim position 1, choice 1 position 0; got {:x?}", ord),
+            );
+        }
+    }
+    // a replacement store landing BEFORE the fill store of the same slot: cap 2, thread 0 claims index 0 and is delayed,
+    // thread 1 fills slot 1, thread 2 claims index 2 and replaces slot 0 (choice 0), then thread 0's fill store lands
+    pushers_case(out, "pushers corpus replacement before fill cap=2", 2, &[vec![p(0, 0, 0)], vec![p(1, 0, 0)], vec![p(2, 0, 0)]], &[0, 0, 1, 1, 1, 2, 2, 2, 0]);
+    // two replacement stores of the same slot out of claim order (cap 1, three pushers)
+    pushers_case(out, "pushers corpus two replacements swapped cap=1", 1, &[vec![p(0, 0, 0)], vec![p(1, 0, 0)], vec![p(2, 0, 0)]], &[0, 0, 0, 1, 1, 2, 2, 2, 1]);
+    // capacity 0 and four pushers
+    pushers_case(out, "pushers corpus cap=0 four pushers", 0, &[vec![p(0, 0, 0)], vec![p(1, 0, 1)], vec![p(2, 0, 2)], vec![p(3, 0, 3)]], &[0, 1, 2, 3, 3, 2, 1, 0, 0, 1, 2, 3]);
+}
+
+/// every schedule of a small set of pushers, each replayed and read through the ghosts
+fn pushers_exhaustive(out: &mut Out, cap: usize, progs: &[Vec<TOp>], limit: usize) {
+    let mut prefix: Vec<usize> = vec![];
+    let mut runs = 0usize;
+    loop {
+        let tag = format!("pushers exhaustive cap={} {} #{}", cap, progs_tok(progs), runs);
+        let (r, _) = pushers_case_run(out, &tag, cap, progs, &prefix);
+        let taken = r.taken.clone();
+        let choices = r.choices.clone();
+        runs += 1;
+        out.count("pushers: schedules enumerated exhaustively");
+        if runs >= limit {
+            out.count("pushers: exhaustive enumerations cut at the limit");
+            return;
+        }
+        let mut i = taken.len();
+        let mut next = None;
+        while i > 0 {
+            i -= 1;
+            if let Some(alt) = choices[i].iter().copied().filter(|c| *c > taken[i]).min() {
+                next = Some((i, alt));
+                break;
+            }
+        }
+        match next {
+            None => {
+                out.count("pushers: exhaustive enumerations completed");
+                return;
+            }
+            Some((i, alt)) => {
+                prefix = taken[..i].to_vec();
+                prefix.push(alt);
+            }
+        }
+    }
+}
+
+// ---------------------------------------------------------------------------------------------
 // stream F: probes without the scheduler
 
 /// the `swap` mutex excludes a second consumer for as long as the first closure runs.  One-sided: on correct code
@@ -1521,6 +1765,22 @@ pub fn run(cfg: &Cfg, out: &mut Out) {
     for i in 0..nconc {
         let mut r = root.fork(0xC0_0000 + i as u64);
         conc_random(&mut r, out, i);
+    }
+    // ---- stream E2: epochs of pushers (no consumer thread)
+    pushers_corpus(out);
+    {
+        let p = |t: usize, k: usize, raw: usize| TOp::Push(pv(t, k), raw);
+        pushers_exhaustive(out, 1, &[vec![p(0, 0, 0)], vec![p(1, 0, 0)]], 100);
+        if cfg.thorough {
+            pushers_exhaustive(out, 1, &[vec![p(0, 0, 0)], vec![p(1, 0, 0), p(1, 1, 1)]], 3000);
+            pushers_exhaustive(out, 1, &[vec![p(0, 0, 0)], vec![p(1, 0, 0)], vec![p(2, 0, 1)]], 3000);
+            pushers_exhaustive(out, 2, &[vec![p(0, 0, 0), p(0, 1, 0)], vec![p(1, 0, 1), p(1, 1, 2)]], 5000);
+        }
+    }
+    let npush = if cfg.thorough { cfg.cases / 2 } else { cfg.cases };
+    for i in 0..npush {
+        let mut r = root.fork(0xE2_0000 + i as u64);
+        pushers_random(&mut r, out, i);
     }
     *verif::POINT_HOOK.write().unwrap() = None;
 
